@@ -2,3 +2,6 @@ pub mod conv;
 pub mod getlen;
 pub mod views;
 pub mod ctx;
+pub mod dec;
+pub mod enc;
+pub mod proc;
